@@ -17,6 +17,7 @@ from typing import cast
 import attr
 import copy
 import math
+import numbers
 import traceback
 from oop_ext.foundation.singleton import Singleton
 
@@ -1233,7 +1234,8 @@ class UnitDatabase(Singleton):
         this = self.GetInfo(quantity_type, from_unit, fix_unknown=True)
         other = self.GetInfo(quantity_type, to_unit, fix_unknown=True)
 
-        if isinstance(value, (float, int)):
+        if isinstance(value, numbers.Real):
+            # any real number, numpy scalars included (numpy.int64 is neither an int nor a float)
             return other.frombase(this.tobase(value))
         else:  # list / tuple
             frombase = other.frombase
